@@ -206,8 +206,9 @@ def api_check(pid, tier, invariants, ops_note):
     dpro = DPROBES[:4] if quick else DPROBES
     epro = EPROBES[:1] if quick else EPROBES[:3]
     # design-level MC (VIEW hides nothing relevant: the history is replaced by its length)
-    r, _ = run_api_tlc("mc", d + 1, customs, dpro, epro, invariants=API_INVARIANTS, properties=["RejectAtomic"])
-    rep.add_tlc(r, "SelfiesAPI depth %d (design: copy on get, clear on set)" % (d + 1))
+    dm = d + 1 if quick else d
+    r, _ = run_api_tlc("mc", dm, customs, dpro, epro, invariants=API_INVARIANTS, properties=["RejectAtomic"], timeout=6000)
+    rep.add_tlc(r, "SelfiesAPI depth %d (design: copy on get, clear on set)" % dm)
     if r.violated:
         rep.violation("specification-level: %s" % r.violated, {"errors": r.errors[:2]})
     # negative controls: the model can see the bug classes (must be violated)
@@ -219,8 +220,14 @@ def api_check(pid, tier, invariants, ops_note):
             raise MachineryError("negative control %s did not violate %s: the model cannot see this bug class" % (nm, inv))
     rep.notes["negative_controls"] = ["alias->NoAliasing", "noclear->CachesCoherent", "nocopy->NoAliasing"]
     # GEN -> REPLAY of full histories
-    r, hists = run_api_tlc("gen", d, customs, dpro, epro, emit=True, invariants=[], view=False)
-    rep.add_tlc(r, "SelfiesAPI histories of length %d" % d)
+    dg = d if quick else 4
+    r, hists = run_api_tlc("gen", dg, customs, dpro, epro, emit=True, invariants=[], view=False)
+    rep.add_tlc(r, "SelfiesAPI histories of length %d" % dg)
+    if not quick:       # one step deeper over a reduced set of tables and probes
+        r5, h5 = run_api_tlc("gen5", 5, customs[:3], dpro[1:3], epro[:1], emit=True, invariants=[], view=False,
+                             presets=("default",), timeout=6000)
+        rep.add_tlc(r5, "SelfiesAPI histories of length 5 (reduced)")
+        replay_histories(rep, h5, customs[:3], dpro[1:3], epro[:1])
     for h in hists:
         ops = [x["op"] for x in h]
         rep.case(json.dumps([(x["op"], x["arg"]) for x in h]),
